@@ -47,3 +47,45 @@ Lemma init_pool_proper adj k : proper adj (init_pool k).
 Proof.
   intros used u v Hin Hu. unfold init_pool in Hin. apply repeat_spec in Hin. subst. destruct Hu.
 Qed.
+
+(* ---- interference_complete ---- *)
+From Coq Require Import MSets.MSetPositive FSets.FMapPositive SetoidList.
+From SwayV Require Import C08.Spec C08.Model C08.Sim C08.Check.
+
+Lemma virt_out_in L ss v : is_virt v = true -> PS.In (rkey v) (out_of L ss) -> In v (virt_out L ss).
+Proof.
+  intros Hv Hin. unfold virt_out. apply filter_In. split; [|exact Hv].
+  apply in_map_iff. exists (rkey v). split; [apply key_reg_rkey|].
+  apply PS.elements_spec1 in Hin. apply InA_alt in Hin. destruct Hin as (y & <- & Hy). exact Hy.
+Qed.
+
+(* every pair of registers that valid_alloc requires to be apart is an edge of the graph
+   (for MOVE v c the source c is exempt, as in the Rust code), whenever the liveness table
+   is a post-fixpoint (in particular the least solution) *)
+Theorem interference_complete ops L : is_postfix defs (items_of ops) L = true ->
+  (forall i o, nth_error ops i = Some o -> wf_kind o) ->
+  forall i o d v, nth_error ops i = Some o -> In d (defs o) -> is_virt d = true -> is_virt v = true ->
+    live_out ops i v -> v <> d -> (forall s, kind o = KMove d s -> v <> s) ->
+    In (d, v) (interference_edges ops L).
+Proof.
+  intros Hp Hwf i o d v Hn Hd Hvd Hvv Hlo Hne Hmv.
+  unfold interference_edges. apply in_flat_map. exists (i, o, succs ops i). split; [apply items_of_in; exact Hn|].
+  pose proof (virt_out_in L (succs ops i) v Hvv (live_out_in_out _ _ _ _ Hp Hlo)) as Hout.
+  unfold item_edges. pose proof (Hwf i o Hn) as Hw. unfold wf_kind in Hw.
+  destruct (kind o) as [d' s'| | | | | | | |] eqn:Hk.
+  1:{ destruct Hw as [Hdefs _]. rewrite Hdefs in Hd. destruct Hd as [<-|[]]. rewrite Hvd.
+      apply in_map_iff. exists v. split; [reflexivity|]. apply filter_In. split; [exact Hout|].
+      apply andb_true_iff. split; apply negb_true_iff; apply N.eqb_neq; [exact (Hmv s' eq_refl) | exact Hne]. }
+  all: apply in_flat_map; exists d; (split; [apply filter_In; split; assumption|]);
+       apply in_map_iff; exists v; (split; [reflexivity|]); apply filter_In; (split; [exact Hout|]);
+       apply negb_true_iff; apply N.eqb_neq; exact Hne.
+Qed.
+
+(* consequence: an assignment that separates the endpoints of every edge satisfies the first part
+   of valid_alloc *)
+Corollary proper_on_edges_valid ops L (asg : reg -> reg) : is_postfix defs (items_of ops) L = true ->
+  (forall i o, nth_error ops i = Some o -> wf_kind o) ->
+  (forall d v, In (d, v) (interference_edges ops L) -> asg d <> asg v) ->
+  forall i o d v, nth_error ops i = Some o -> In d (defs o) -> is_virt d = true -> is_virt v = true ->
+    live_out ops i v -> v <> d -> (forall s, kind o = KMove d s -> v <> s) -> asg d <> asg v.
+Proof. intros Hp Hwf He i o d v Hn Hd Hvd Hvv Hlo Hne Hmv. apply He. eapply interference_complete; eassumption. Qed.
